@@ -8,3 +8,17 @@ claim("C45",
       "FeeForUsage is decided on top of Mul2div's contract (assume-guarantee; Mul2div itself is decided against the exact 192-bit product). "
       "Exact wide products in the oracle are normalised to 64x64 limb products (a bit-vector identity) so that oracle and implementation share product terms. "
       "DivCeil/RoundUpToMultipleOf are documented as unchecked by the code and deliberately excluded.")
+
+claim("C25",
+      "RewardsState.NextRewardsState is executed symbolically with level, rate, residue, recalculation round, pool balance, reward units, MinBalance, refresh interval and both "
+      "protocol flags all symbolic 64-bit values. Decided for every input: (Δlevel·units + Δresidue == rate in effect) in exact integers whenever the 64-bit computation fits, residue' < units, "
+      "level/residue unchanged when units == 0 or on overflow, and at a refresh rate'·interval <= pool − MinBalance (− residue when PendingResidueRewards) with rate' maximal, zero when underfunded.",
+      "Assumes RewardsRateRefreshInterval != 0 (consensus-parameter sanity). The pool withdrawal in StartEvaluator is outside this check. Logger is a no-op model.")
+
+claim("C26",
+      "One inductive step of UpgradeState.applyUpgradeVote from an arbitrary state satisfying the stated invariant, with symbolic UpgradeVoteRounds/Threshold/Min/Max/DefaultUpgradeWaitRounds "
+      "installed in config.Consensus: the invariant is preserved; CurrentProtocol changes only at r == NextProtocolSwitchOn of a pending proposal with approvals >= threshold, to exactly that version; "
+      "second proposal, approval without proposal / after deadline, out-of-range delay, delay without proposal are errors; failed proposals are cleared only at their deadline. "
+      "BlockHeader.PreCheck nil => header round = prev+1, Branch = prev.Hash(), and header UpgradeState == applyUpgradeVote(prev state, round, header vote).",
+      "Versions drawn from {\"\", vA, vB}; parameters < 2^40 and rounds < 2^60 (no wrap), threshold <= voteRounds, voteRounds >= 1, threshold >= 1, min <= default <= max wait; "
+      "block hash is an injective uninterpreted function. Composition of steps into whole histories is by induction on the invariant (paper).")
